@@ -108,7 +108,7 @@ fn main() {
         }
     } else {
         let opts = Opts {
-            wall_budget_s: if tier == "thorough" { 3000.0 } else { 600.0 },
+            wall_budget_s: if tier == "thorough" { 1200.0 } else { 600.0 },
             tier,
             seed,
             workers,
